@@ -636,6 +636,13 @@ class Domain:
                         out.append(("desc", v))
                     if self.eng.registry_invariant:
                         out.append(("reg", v))
+            if ip is None and it_t == T_NLIST:
+                # a child list reached through an expression without a path (the children of a call result): its elements
+                # are nodes of some tree all the same
+                if self.eng.registry_invariant:
+                    out.append(("reg", v))
+                if self.eng.tree_invariant and isinstance(it, ast.Attribute) and self.nm.canon(it.attr) == "_children":
+                    out.append(("desc", v))
             # d.keys() / snapshots
             if isinstance(it, ast.Call) and isinstance(it.func, ast.Attribute):
                 bp = self.path(it.func.value)
@@ -667,6 +674,7 @@ class Domain:
                         out.append(("reg", v))
             if isinstance(it, ast.Call) and isinstance(it.func, ast.Name) and it.func.id == "range":
                 out.extend(self._range_facts(v, it, st))
+            out.extend(self._elem_facts_of(v, it, st))
         elif isinstance(target, ast.Tuple) and ip is not None and "." not in ip:
             for i, x in enumerate(target.elts):
                 if isinstance(x, ast.Name):
@@ -696,6 +704,31 @@ class Domain:
                         if lp.endswith("._children") and self.eng.tree_invariant:
                             out.append(("desc", x.id))
         return F.add(st, *[o for o in out if o])
+
+    def _iter_elem_facts(self, x, value, st):
+        """facts about every element of the iterable a variable is bound to (a range): ('rub', x, L, k), ('rlb', x, c)"""
+        out = []
+        if isinstance(value, ast.Call) and isinstance(value.func, ast.Name) and value.func.id == "range" and not value.keywords:
+            for f in self._range_facts("$r", value, st):
+                if f[0] == "ub":
+                    out.append(("rub", x, f[2], f[3]))
+                elif f[0] == "lb":
+                    out.append(("rlb", x, f[2]))
+        return out
+
+    def _elem_facts_of(self, v, it, st):
+        """facts for a variable bound to some element of the iterable expression ``it`` (a Name carrying rub / rlb facts,
+        possibly wrapped in iter())"""
+        if isinstance(it, ast.Call) and isinstance(it.func, ast.Name) and it.func.id in ("iter", "reversed", "list", "tuple", "sorted") and len(it.args) == 1:
+            it = it.args[0]
+        out = []
+        if isinstance(it, ast.Name):
+            for f in st:
+                if f[0] == "rub" and f[1] == it.id:
+                    out.append(("ub", v, f[2], f[3]))
+                elif f[0] == "rlb" and f[1] == it.id:
+                    out.append(("lb", v, f[2]))
+        return out
 
     def _range_facts(self, v, call, st):
         out = []
@@ -949,6 +982,10 @@ class Domain:
                     out.append((k, p, f[2], f[3]))
                 elif k == "lb" and f[1] == vp:
                     out.append((k, p, f[2]))
+                elif k == "rub" and f[1] == vp:
+                    out.append((k, p, f[2], f[3]))
+                elif k == "rlb" and f[1] == vp:
+                    out.append((k, p, f[2]))
             if p != RET:
                 out.append(("alias", p, vp))
         if not self.nullable(value, st):
@@ -980,6 +1017,11 @@ class Domain:
             out.append(("lb", p, 0))
         if isinstance(value, ast.Call):
             out.extend(self._call_value_facts(p, value, st))
+            if "." not in p:
+                out.extend(self._iter_elem_facts(p, value, st))
+                # x = next(iter(R), None) / next(iter(R)): some element of R (or the default; bounds are about the int case)
+                if isinstance(value.func, ast.Name) and value.func.id == "next" and value.args and not value.keywords:
+                    out.extend(self._elem_facts_of(p, value.args[0], st))
         if isinstance(value, ast.Attribute):
             # x.parent with desc(x)
             pass
@@ -1197,7 +1239,7 @@ class Domain:
     # ------------------------------------------------------------------ calls
     def _shrink_list(self, st, lp):
         return frozenset(f for f in st if not (
-            (f[0] in ("ub", "eqlen", "member", "snap", "islen") and lp in F.paths_of(f)) or (f[0] == "lenge" and f[1] == lp)))
+            (f[0] in ("ub", "rub", "eqlen", "member", "snap", "islen") and lp in F.paths_of(f)) or (f[0] == "lenge" and f[1] == lp)))
 
     def _tree_kill(self, st, effects):
         out = set(st)
@@ -1208,7 +1250,7 @@ class Domain:
                 out = {f for f in out if not ((f[0] == "member" and f[1] == x) or (f[0] in ("desc", "listed") and f[1] == x))}
             elif k == "shrink_path":  # the list at this path loses unknown elements
                 lp = fx[1]
-                out = {f for f in out if not ((f[0] in ("member", "snap") and f[2] == lp) or (f[0] in ("ub", "eqlen") and lp in F.paths_of(f))
+                out = {f for f in out if not ((f[0] in ("member", "snap") and f[2] == lp) or (f[0] in ("ub", "rub", "eqlen") and lp in F.paths_of(f))
                                               or (f[0] == "lenge" and f[1] == lp))}
             elif k == "overwrite_path":
                 lp = fx[1]
@@ -1216,11 +1258,11 @@ class Domain:
             elif k == "below":  # lists at or below this root variable shrink
                 r = fx[1]
                 out = {f for f in out if not ((f[0] in ("member", "snap") and f[2].split(".")[0] == r)
-                                              or (f[0] in ("ub", "eqlen", "lenge") and any(q.split(".")[0] == r and "_children" in q for q in F.paths_of(f)))
+                                              or (f[0] in ("ub", "rub", "eqlen", "lenge") and any(q.split(".")[0] == r and "_children" in q for q in F.paths_of(f)))
                                               or (f[0] == "desc" and f[1].split(".")[0] != r and False))}
             elif k == "any":
                 out = {f for f in out if not (f[0] == "elem" and f[3] in ("desc", "listed"))}
-                out = {f for f in out if f[0] not in ("member", "snap", "desc", "listed") and not (f[0] in ("ub", "eqlen", "lenge") and any("_children" in q for q in F.paths_of(f)))}
+                out = {f for f in out if f[0] not in ("member", "snap", "desc", "listed") and not (f[0] in ("ub", "rub", "eqlen", "lenge") and any("_children" in q for q in F.paths_of(f)))}
             elif k == "unreg":
                 x = fx[1]
                 out = {f for f in out if not (f[0] == "reg" and f[1] == x) and not (f[0] == "haskey" and f[1] == STORE and f[2] in (x + "._id",))}
@@ -1476,7 +1518,7 @@ class Domain:
                     if op:
                         # the owner's list shrinks by exactly that element: bounds on it are lost
                         lp = op + "._children"
-                        st = frozenset(f for f in st if not (f[0] in ("ub", "eqlen", "lenge") and lp in F.paths_of(f)))
+                        st = frozenset(f for f in st if not (f[0] in ("ub", "rub", "eqlen", "lenge") and lp in F.paths_of(f)))
                 elif k == "shrink_self":
                     ao = am.get(fx[1])
                     op = self.path(ao) if ao is not None else None
@@ -1730,7 +1772,7 @@ class Domain:
                     continue
             if f[0] in ("desc", "listed") and removed_path is not None and f[1] == removed_path:
                 continue
-            if f[0] in ("ub", "eqlen", "islen") and lp in F.paths_of(f):
+            if f[0] in ("ub", "rub", "eqlen", "islen") and lp in F.paths_of(f):
                 continue
             if f[0] == "lenge" and f[1] == lp:
                 continue
